@@ -719,6 +719,61 @@ def probe_plan():
 ALL_FORMATS = ["pax", "gnutar", "newc", "zip", "7zip", "xar", "iso9660", "mtree"]
 ALL_CLIS = ["bsdtar-default", "bsdtar-pax", "bsdtar-gnutar", "bsdtar-default-S", "bsdtar-pax-dense-S", "bsdcpio-newc"]
 
+def hardlink_farm(rep, ctx, stats):
+    """More pending hard-link groups than the resolver's table holds before it grows (2048, 4096, ...): every file has
+    two names, all first names are archived before any second name, and the names are ordered so that the inodes
+    inserted around each growth step have the hash bit set that distinguishes the old table size from the new one."""
+    n = 4300
+    base = os.path.join(ctx.scratch, "farm")
+    src, dst = os.path.join(base, "src"), os.path.join(base, "dst")
+    shutil.rmtree(base, ignore_errors=True)
+    os.makedirs(os.path.join(src, "a")); os.makedirs(os.path.join(src, "b")); os.makedirs(dst)
+    keys = []
+    for i in range(n):
+        pa = os.path.join(src, "a", "f%05d" % i)
+        with open(pa, "wb") as f:
+            f.write(b"%d\n" % i)
+        os.link(pa, os.path.join(src, "b", "f%05d" % i))
+        st = os.lstat(pa)
+        keys.append(st.st_dev ^ st.st_ino)
+    order, used = [None] * n, set()
+    def take(bit, lo, hi):
+        pool = [i for i in range(n) if i not in used and (keys[i] >> bit) & 1]
+        for pos in range(lo, min(hi, n)):
+            if pool:
+                i = pool.pop(); order[pos] = i; used.add(i)
+    take(10, 2040, 2060); take(11, 4088, 4108)
+    rest = [i for i in range(n) if i not in used]
+    for pos in range(n):
+        if order[pos] is None:
+            order[pos] = rest.pop()
+    lst = os.path.join(base, "names")
+    with open(lst, "w") as f:
+        for i in order:
+            f.write("a/f%05d\n" % i)
+        for i in order:
+            f.write("b/f%05d\n" % i)
+    for tag, fmt in (("farm-pax", "pax"), ("farm-gnutar", "gnutar")):
+        shutil.rmtree(dst, ignore_errors=True); os.makedirs(dst)
+        cmd = "%s -cf - --format %s -C %s -T %s | %s -xpf - -C %s" % (q(ctx.bsdtar), fmt, q(src), q(lst), q(ctx.bsdtar), q(dst))
+        rc, out, err = sh(ctx, cmd)
+        stats["evaluations"] += 1
+        bad = []
+        for i in range(n):
+            try:
+                sa = os.lstat(os.path.join(dst, "a", "f%05d" % i)); sb = os.lstat(os.path.join(dst, "b", "f%05d" % i))
+            except OSError:
+                bad.append("f%05d missing" % i); continue
+            if sa.st_ino != sb.st_ino or sa.st_nlink != 2:
+                bad.append("f%05d (position %d of the first names): two inodes, nlink %d/%d" % (i, order.index(i) + 1, sa.st_nlink, sb.st_nlink))
+        if rc != 0 or bad:
+            rep.violation("C12:hardlink-farm:%s" % tag,
+                          "[%s] %d files with two names each, first names archived first: rc=%d, %d file(s) did not come back as one file with "
+                          "two names: %s %s" % (tag, n, rc, len(bad), "; ".join(bad[:3]), err[-200:].replace("\n", " | ")),
+                          dict(pipeline=tag, cmd=cmd, files=n, how="create a/fNNNNN, hard link b/fNNNNN, archive with -T (all a/ names, then all b/ names)",
+                               bad=bad[:20]), found_input=True)
+    shutil.rmtree(base, ignore_errors=True)
+
 def run(rep):
     pr = vlib.proof_part(rep, "C12")
     ctx = setup(rep)
@@ -739,6 +794,10 @@ def run(rep):
             rep.violation("crash:treeWalk:%s:probe-%s" % (vlib.crash_key(ex.err), name),
                           "harness stopped (rc=%s) on probe %s: %s" % (ex.rc, name, squeeze(ex.err)[-400:].replace("\n", " | ")),
                           dict(tree=vfmt(tree), case=ex.lines[0][:2000], stderr=ex.err[-3000:], probe=name), found_input=True)
+    try:
+        hardlink_farm(rep, ctx, stats)
+    except Exception as ex:
+        rep.violation("C12:hardlink-farm:could-not-run", "hard-link farm could not be run: %r" % (ex,), dict(error=repr(ex)), found_input=False)
     flush_classes(rep, ctx)
     stats["probes"] = [p[0] for p in probe_plan()]
     del stats["trees"][ntrees:]
